@@ -94,6 +94,33 @@ pub struct Packed<T: Seed + PartialEq>(T);
 #[nutype(sanitize(with = |v: i64| v.clamp(0, 10)), validate(greater = 0), default = 50, derive(Debug, Clone, Copy, PartialEq, Default, AsRef))]
 pub struct Lvl(i64);
 
+// an inner type whose inherent `from_str` differs from its `FromStr` impl: the derived FromStr of
+// the newtype must go through the trait
+#[derive(Debug, Clone, PartialEq)]
+pub struct Celsius(pub i32);
+impl Celsius {
+    pub fn from_str(s: &str) -> Result<Celsius, String> { s.trim_end_matches('C').parse::<i32>().map(Celsius).map_err(|e| e.to_string()) }
+}
+impl std::str::FromStr for Celsius {
+    type Err = String;
+    fn from_str(s: &str) -> Result<Self, Self::Err> { s.parse::<i32>().map(Celsius).map_err(|_| "not a number".to_string()) }
+}
+impl std::fmt::Display for Celsius {
+    fn fmt(&self, f: &mut std::fmt::Formatter<'_>) -> std::fmt::Result { write!(f, "{}", self.0) }
+}
+
+#[nutype(validate(predicate = |c| c.0 > -273), derive(Debug, Clone, PartialEq, FromStr, AsRef, Display))]
+pub struct Temp(Celsius);
+
+#[nutype(derive(Debug, Clone, PartialEq, FromStr, AsRef))]
+pub struct RawTemp(Celsius);
+
+// owned deserialization of a lifetime-parameterised newtype
+#[nutype(validate(predicate = |s| !s.is_empty()), derive(Debug, Clone, PartialEq, AsRef, Serialize, Deserialize))]
+pub struct Note<'a>(Cow<'a, str>);
+
+fn owned_roundtrip<T: serde::de::DeserializeOwned>(doc: String) -> Option<T> { serde_json::from_reader(doc.as_bytes()).ok() }
+
 // ---------------------------------------------------------------- generic check pieces
 
 macro_rules! pairwise {
@@ -270,6 +297,27 @@ fn main() {
             }
         }
         pairwise!("C13", "Quad", quads.clone(), |v: [u8; 4]| Quad::try_new(v).ok(), [PartialEq, PartialOrd, Ord, Hash]);
+    }
+    // ------------------------------------------------------------ FromStr goes through the inner type's FromStr impl
+    {
+        for (k, text) in ["21", "21C", "-300", "-300C", "C", "", " 7", "0"].iter().enumerate() {
+            let inner: Result<Celsius, String> = <Celsius as std::str::FromStr>::from_str(text);
+            let got = text.parse::<Temp>();
+            let want_ok = match &inner { Ok(c) => Temp::try_new(c.clone()).ok(), Err(_) => None };
+            let is_parse_err = matches!(got, Err(TempParseError::Parse(_)));
+            report("C06", "Temp", "from_str", got.ok() == want_ok && (inner.is_err() == is_parse_err), format!("input {}", k));
+            let got2 = text.parse::<RawTemp>();
+            report("C06", "RawTemp", "from_str", got2.ok().map(|t| t.into_inner()) == inner.ok(), format!("input {}", k));
+        }
+    }
+    // ------------------------------------------------------------ owned deserialization of Note<'a>
+    {
+        let n: Option<Note<'static>> = owned_roundtrip("\"hello\"".to_string());
+        report("C04", "Note", "deserialize_owned", n.as_ref().map(|t| t.as_ref().as_ref() == "hello").unwrap_or(false), String::new());
+        let e: Option<Note<'static>> = owned_roundtrip("\"\"".to_string());
+        report("C04", "Note", "deserialize_owned_rejects", e.is_none(), String::new());
+        let js = n.as_ref().and_then(|t| serde_json::to_string(t).ok());
+        report("C10", "Note", "serialize_transparent", js.as_deref() == Some("\"hello\""), String::new());
     }
     // ------------------------------------------------------------ Default along a history / across instantiations
     {
